@@ -80,6 +80,13 @@ impl Stats {
     }
     pub fn flush(self, r: &mc::Report, prefix: &str) {
         r.eval(self.evals);
+        let mut hist: BTreeMap<String, u64> = BTreeMap::new();
+        for v in &self.viols {
+            *hist.entry(v.sig.clone()).or_insert(0) += 1;
+        }
+        for (s, n) in &hist {
+            r.counter(&format!("violation:{s}"), *n);
+        }
         for (k, v) in &self.outcomes {
             r.outcome_n(&format!("{prefix}{k}"), *v);
         }
